@@ -168,6 +168,25 @@ theorem tarjan_after_any_history (r : σ) (hr : M.WF r) (ops : List ο) :
   rw [ha] at harc hv
   exact ⟨hv, hasc, tarjanHolds_of harc hcl⟩
 
+/-- **Every call** of `components()` on one `Tarjan` object built on the final model state
+(`tarjan_every_call` after any history). -/
+theorem tarjan_every_call_after_any_history (r : σ) (hr : M.WF r) (ops : List ο) :
+    TarjanEveryCallHolds (M.vview (M.after r ops)).verts (M.specAfter r ops).Arc (M.vview (M.after r ops)) := by
+  obtain ⟨hw, ha, _⟩ := M.run_refines r hr ops
+  obtain ⟨hcl, _, _, harc⟩ := M.vview_spec _ hw
+  rw [ha] at harc
+  exact tarjanEveryCallHolds_of harc hcl
+
+/-- **Every one of `k` calls** of `circuits()` on one `Johnson75` object built on the final model
+state (`johnson_repeat_statement` after any history). -/
+theorem johnson_repeat_after_any_history (r : σ) (hr : M.WF r) (ops : List ο)
+    (hok : M.viewOK (M.after r ops)) :
+    JohnsonRepeatHolds (M.specAfter r ops).Arc (M.view (M.after r ops)) := by
+  obtain ⟨hw, ha, _⟩ := M.run_refines r hr ops
+  obtain ⟨_, hwf, harc, hl, hrn⟩ := M.view_spec _ hw hok
+  rw [ha] at harc
+  exact johnsonRepeatHolds_of harc hwf hl hrn
+
 end ReprModel
 
 /-! ## The five instances -/
